@@ -76,12 +76,13 @@ def run_shard(k, n):
         base[m.PROP] = {v['key'] for v in r.violations}
     done = set()
     outp = os.path.join(OUT, 'shard_%d_%d.jsonl' % (k, n))
-    if os.path.exists(outp):
-        for l in open(outp):
-            try:
-                done.add(tuple(json.loads(l)['job'][:3]))
-            except Exception:
-                pass
+    for f in os.listdir(OUT):
+        if f.endswith('.jsonl'):
+            for l in open(os.path.join(OUT, f)):
+                try:
+                    done.add(tuple(json.loads(l)['job'][:3]))
+                except Exception:
+                    pass
     demos = sorted(d for d in os.listdir(os.path.join(VERIF, 'seeded')) if os.path.exists(os.path.join(VERIF, 'seeded', d, 'demo.py')))
     with open(outp, 'a') as out:
         for j, job in enumerate(jobs):
